@@ -847,6 +847,18 @@ class BlockingOracle(Oracle):
             present = [b for b in refs if ev["g"][b.param_index] is not None]
             if len(gblocks) != len(present):
                 raise run.violation("grad_block_index_set_differs", gi, n_grad_blocks=len(gblocks), n_present_blocks=len(present))
+            pblocks = sl.get("masked_blocked_params")
+            if pblocks is not None and len(pblocks) == len(gblocks):
+                # the parameter block each gradient block is paired with in this step is the block with the same index set
+                for k, (pb, b) in enumerate(zip(pblocks, present)):
+                    same = (
+                        pb.untyped_storage().data_ptr() == b.block.untyped_storage().data_ptr()
+                        and pb.storage_offset() == b.block.storage_offset()
+                        and tuple(pb.shape) == tuple(b.block.shape)
+                        and tuple(pb.stride()) == tuple(b.block.stride())
+                    )
+                    if not same:
+                        raise run.violation("grad_block_index_set_differs", gi, block=b.key, param=b.param_index, position=k, note="gradient block paired with another parameter block")
             for gb, b in zip(gblocks, present):
                 g = b.param.grad
                 if g is None or gb.untyped_storage().data_ptr() != g.untyped_storage().data_ptr():
